@@ -23,6 +23,13 @@ Theorem C01_section_leaf : forall t body, leaf_type t = true -> 0 <= t < 256 -> 
   4 + zlen body < 16777215 -> sec_ok dec enc u2s s2u nvar (sec_bytes t body).
 Proof. exact (sec_ok_leaf dec enc u2s s2u nvar). Qed.
 
+(* the same with the extended common header (size field 0xFFFFFF, 32-bit size): any size that fits
+   32 bits; only for types the parser knows (for others 0xFFFFFF is an ordinary size) *)
+Theorem C01_section_leaf_large : forall t body,
+  leaf_type t = true -> known_section t = true -> 0 <= t < 256 -> bytes_ok body = true ->
+  8 + zlen body < 4294967295 -> sec_ok dec enc u2s s2u nvar (sec_bytes_large t body).
+Proof. exact (sec_ok_leaf_large dec enc u2s s2u nvar). Qed.
+
 (* GUID-defined sections that are not decoded (no processing-required bit, or not a codec GUID),
    including extra header bytes between the GUID-defined header and the payload *)
 Theorem C01_section_guid_opaque : forall g attrs extra payload,
@@ -198,6 +205,7 @@ Theorem C01_scan_trail : forall trail,
 Proof. exact (trail_scan_ok_intro (fun _ _ => None) (fun _ _ => None) (fun b => b) (fun b => b) (fun _ => None)). Qed.
 
 Print Assumptions C01_section_leaf.
+Print Assumptions C01_section_leaf_large.
 Print Assumptions C01_section_guid_opaque.
 Print Assumptions C01_section_ui.
 Print Assumptions C01_section_version.
